@@ -415,6 +415,9 @@ func (root *Root) formArgs(
 				if fd != nil {
 					if a := fd.getArg(av.Arg); a != nil {
 						at = a.Type
+					} else {
+						ea = append(ea, resWarn(av.line, av.col, "%s is not an argument to %s", av.Arg, field.Name))
+						continue
 					}
 				}
 				if av.Value != nil {
